@@ -212,7 +212,7 @@ def check_case(acc, case, project=None) -> list[dict]:
 
                 own = None
                 if project is None:
-                    own = project = front.SphinxProject()
+                    own = project = front.SphinxProject(confoverrides={"keep_warnings": True})
                 try:
                     cfg = {k[5:]: v for k, v in settings.items() if k not in ("myst_inventories",)}
                     project.app.env.myst_config = MdParserConfig(**cfg)
@@ -333,7 +333,9 @@ def sub_random(acc, shard, nshards, tier, seed):
 
 def sub_sphinx(acc, shard, nshards, tier, seed):
     n = 60 if tier == "quick" else 1500
-    with front.sphinx_project() as project:
+    # keep_warnings: Sphinx otherwise strips every system_message from the doctree it hands back, and 'removed from
+    # the doctree as well as from the log' could not be observed in this front end
+    with front.sphinx_project(confoverrides={"keep_warnings": True}) as project:
         hyp_run(acc, case_st(sphinx=True), lambda c: check_case(acc, c, project), max_examples=n,
                 seed=shard_seed(seed, shard, 15), is_known=known().matches)
 
